@@ -55,6 +55,7 @@ Fixpoint aremove {A} (k : nat) (l : list (nat * A)) : list (nat * A) :=
 Definition kind_lost := "C07:store-lost-update"%string.
 Definition kind_two := "C07:store-two-handles"%string.
 Definition kind_stale := "C07:store-stale-base"%string.
+Definition kind_stale_read := "C07:store-stale-read"%string.
 
 (* The backing store agrees with the latest released message of every
    digest that was ever released dirty. *)
@@ -81,8 +82,14 @@ Definition mon_step (m : mstate) (e : event) (o : out) (backing : N -> list N) :
       let m' := mkM (aremove g (m_gets m)) (m_refs m ++ [(g, (d, ident))]) (m_latest m) (m_seen m) (m_nextg m) in
       if negb (forallb (fun r => negb (N.eqb (fst (snd r)) d) || Nat.eqb (snd (snd r)) ident) (m_refs m))
       then (m', kind_two)
-      else if negb (list_N_eqb msg (m_latest m d)) then (m', kind_stale)
-      else (m', ""%string)
+      else if list_N_eqb msg (m_latest m d) then (m', ""%string)
+      (* The handle does not carry the latest released message.  If the
+         backing store does not have it either, the update lives in some
+         other handle object: the store lost track of it.  If the backing
+         store is up to date, the handle was built from a read that a
+         completed write-back overtook. *)
+      else if list_N_eqb (backing d) (m_latest m d) then (m', kind_stale_read)
+      else (m', kind_stale)
     | None => (m, ""%string)
     end
   | ERel g dirty tok, ORel msg =>
